@@ -13,6 +13,9 @@ import json
 import common
 import gen_common as G
 import gen_checks as GC
+import gen_market
+import gen_tax
+import gen_asset
 
 PID = 'C01'
 FAMILY = 'Gen'
@@ -180,6 +183,13 @@ def run(ctx):
         'emitted equations), the quantifier over parameters/exogenous paths/periods by the soundness theorem',
         'exchange rates non-zero', 'raw user AddCashFlow calls (one-sided by nature) are not generated',
         "the external sector's own NUMERAIRE pseudo-zone is excluded here (C07 states its position)"]
+    # per-group balance lemmas for ALL zones / participant lists (coq/GenMarket, coq/GenTax, coq/GenAsset), each
+    # tied to the implementation by its own state correspondence and oracle
+    out.proof = common.merge_proofs([out.proof] + [common.proof_status(f, p) for f, p in
+                                                   gen_market.PROOFS + gen_tax.PROOFS + gen_asset.PROOFS])
+    gen_market.extra(ctx, out, 150, 2000)
+    gen_tax.extra(ctx, out)
+    gen_asset.extra(ctx, out)
     return out
 
 
@@ -193,4 +203,10 @@ def replay(path):
             print('FAILS:', f['what'][:300])
         print('replay: %s' % ('property violated' if fails else 'property holds on this input'))
         return 1 if fails else 0
+    if r.get('kind') == 'market':
+        return gen_market.replay(obj)
+    if r.get('kind') in ('tax', 'dividends'):
+        return gen_tax.replay(obj)
+    if r.get('kind') == 'asset':
+        return gen_asset.replay(obj)
     return GC.replay_program(path, make_targets)
